@@ -7,14 +7,19 @@
 //!    the model frames / encrypts / serialises the very same bytes and the complete container is
 //!    compared byte for byte.  `dec`, `decplain`, `rows` are stateless: the model parses and
 //!    decodes the bytes the implementation produced (the independent decoder of the property).
+//!    The encoder entry points outside the builder (`BlteFile::{compress, single_chunk,
+//!    multi_chunk}`, `BlteHeader::multi_chunk_extended`) are stateless request lines (`compress`,
+//!    `single`, `multi std|ext`), answered by the model's `compress` / `singleChunk` /
+//!    `multiChunk` / `multiChunkExt`; hand-made containers with Frame chunks and encrypted chunks
+//!    whose inner payload starts with `F` / `E` are decoded on both sides.
 //! O: identity of decode∘parse∘serialize∘build on the added bytes, truth of every chunk-table row
 //!    (sizes recomputed from the chunk as serialised and as decoded, MD5 by the independent `md5`
 //!    crate), "error instead of garbage", and the compressor law used by the theorems.
 use cascette_crypto::{TactKey, TactKeyStore};
 use cascette_formats::CascFormat;
 use cascette_formats::blte::{
-    BlteBuilder, BlteError, BlteFile, ChunkData, CompressionMode, EncryptionSpec, compress_chunk,
-    decompress_chunk, decrypt_chunk_with_keys,
+    BlteBuilder, BlteError, BlteFile, BlteHeader, ChunkData, CompressionMode, EncryptionSpec,
+    HeaderFlags, compress_chunk, decompress_chunk, decrypt_chunk_with_keys, encrypt_chunk_with_key,
 };
 use std::collections::BTreeMap;
 use std::panic::AssertUnwindSafe;
@@ -395,6 +400,494 @@ impl Prog {
     }
 }
 
+// ---------------------------------------------------------------- encoder entry points outside the builder
+
+/// set when a call of the real code did not return within its watchdog time
+static HUNG: std::sync::atomic::AtomicBool = std::sync::atomic::AtomicBool::new(false);
+
+/// run `f` on its own thread; `None` if it has not returned after `ms` milliseconds (the thread
+/// cannot be stopped: the caller records the failure, finishes the session and exits)
+fn watchdog(ms: u64, f: impl FnOnce() -> String + Send + 'static) -> Option<String> {
+    let (tx, rx) = std::sync::mpsc::channel();
+    std::thread::spawn(move || {
+        let r = catch(AssertUnwindSafe(f)).unwrap_or_else(|_| "panic".into());
+        let _ = tx.send(r);
+    });
+    rx.recv_timeout(std::time::Duration::from_millis(ms)).ok()
+}
+
+fn ser(f: Result<BlteFile, BlteError>) -> String {
+    match f {
+        Ok(f) => match CascFormat::build(&f) {
+            Ok(b) => format!("ok {}", hex(&b)),
+            Err(_) => "err:serialize".into(),
+        },
+        Err(e) => err_class(&e).into(),
+    }
+}
+
+/// one element of the vector handed to `multi_chunk`; see `Item` in Driver/C01.lean
+#[derive(Clone)]
+enum Item {
+    New(Vec<u8>, &'static str),
+    Raw(&'static str, Vec<u8>, Option<usize>),
+}
+
+fn static_mode(m: &str) -> Option<&'static str> {
+    ["N", "Z", "4", "E", "F"].into_iter().find(|x| *x == m)
+}
+
+fn parse_items(s: &str) -> Option<Vec<Item>> {
+    let mut v = vec![];
+    if s == "-" {
+        return Some(v);
+    }
+    for ent in s.split(',') {
+        let parts: Vec<&str> = ent.split(':').collect();
+        match parts.as_slice() {
+            [m, d] => v.push(Item::New(unhex(d)?, static_mode(m)?)),
+            [m, d, decl] => {
+                let m = static_mode(m.strip_prefix('r')?)?;
+                let decl = if *decl == "-" { None } else { Some(decl.parse().ok()?) };
+                v.push(Item::Raw(m, unhex(d)?, decl));
+            }
+            _ => return None,
+        }
+    }
+    Some(v)
+}
+
+fn items_str(items: &[Item]) -> String {
+    let v: Vec<String> = items
+        .iter()
+        .map(|it| match it {
+            Item::New(d, m) => format!("{m}:{}", hex(d)),
+            Item::Raw(m, d, decl) => format!("r{m}:{}:{}", hex(d), decl.map(|n| n.to_string()).unwrap_or_else(|| "-".into())),
+        })
+        .collect();
+    if v.is_empty() { "-".into() } else { v.join(",") }
+}
+
+/// the real entry points; `None` = not one of these request lines
+fn entry_real(toks: &[&str]) -> Option<String> {
+    Some(match toks {
+        ["compress", cs, m, d, _tab] => {
+            let cs: usize = cs.parse().ok()?;
+            let m = mode_of(m)?;
+            let d = unhex(d)?;
+            // a chunk size of 0 is the shape that once never returned (and allocated without bound)
+            let ms = if cs == 0 { 400 } else { 20_000 };
+            match watchdog(ms, move || ser(BlteFile::compress(&d, cs, m))) {
+                Some(r) => r,
+                None => {
+                    HUNG.store(true, std::sync::atomic::Ordering::SeqCst);
+                    "hang".into()
+                }
+            }
+        }
+        ["single", m, d, _tab] => {
+            let m = mode_of(m)?;
+            let d = unhex(d)?;
+            catch(AssertUnwindSafe(move || ser(BlteFile::single_chunk(d, m)))).unwrap_or_else(|_| "panic".into())
+        }
+        ["multi", fmt, items, _tab] => {
+            let items = parse_items(items)?;
+            let ext = match *fmt {
+                "std" => false,
+                "ext" => true,
+                _ => return None,
+            };
+            catch(AssertUnwindSafe(move || {
+                let mut chunks = vec![];
+                for it in items {
+                    match it {
+                        Item::New(d, m) => match ChunkData::new(d, mode_of(m).unwrap()) {
+                            Ok(c) => chunks.push(c),
+                            Err(e) => return err_class(&e).to_string(),
+                        },
+                        Item::Raw(m, d, decl) => chunks.push(ChunkData::from_compressed(mode_of(m).unwrap(), d, decl)),
+                    }
+                }
+                if ext {
+                    ser(BlteHeader::multi_chunk_extended(&chunks).map(|header| BlteFile { header, chunks }))
+                } else {
+                    ser(BlteFile::multi_chunk(chunks))
+                }
+            }))
+            .unwrap_or_else(|_| "panic".into())
+        }
+        _ => return None,
+    })
+}
+
+/// One entry-point case: run the request line on the real code, then (if `views`) the decode /
+/// table views of the container it produced, and evaluate O on the implementation's outputs.
+/// `pieces` = the harness's own account of the content of every chunk (None: the call must fail).
+fn entry_case(s: &mut Session, line: &str, views: bool, verbose: bool) {
+    let toks: Vec<&str> = line.split(' ').collect();
+    let Some(r) = entry_real(&toks) else {
+        s.line(line, "bad-op");
+        return;
+    };
+    s.line(line, &r);
+    s.tally(&format!("op.{}", toks[0]));
+    if verbose {
+        println!("impl  {} -> {}", trunc(line), trunc(&r));
+    }
+    let replay = vec![line.to_string()];
+    if r == "hang" {
+        s.oracle_fail("encoder-does-not-return", &format!("{} did not return within the watchdog time", trunc(line)), &replay);
+        s.case(None);
+        return;
+    }
+    // the harness's own account of the call
+    let mut p = Prog::new();
+    p.lines = replay.clone();
+    let mut raw = false;
+    let mut raw_points: Vec<String> = vec![];
+    let mut ext = false;
+    match toks.as_slice() {
+        ["compress", cs, m, d, _] => {
+            let d = unhex(d).unwrap_or_default();
+            let cs: usize = cs.parse().unwrap_or(0);
+            let ch = split(cs, &d);
+            p.table_for(m, ch.as_deref().unwrap_or(&[]));
+            p.shape.push("compress");
+            p.account(&d, ch, None, *m != "E" && *m != "F");
+        }
+        ["single", m, d, _] => {
+            let d = unhex(d).unwrap_or_default();
+            p.table_for(m, std::slice::from_ref(&d));
+            p.shape.push("single");
+            p.account(&d, Some(vec![d.clone()]), None, *m != "E" && *m != "F");
+        }
+        ["multi", fmt, items, _] => {
+            ext = *fmt == "ext";
+            p.shape.push(if ext { "multi-ext" } else { "multi" });
+            let items = parse_items(items).unwrap_or_default();
+            if items.is_empty() {
+                p.expect_err = true;
+            }
+            for it in &items {
+                match it {
+                    Item::New(d, m) => {
+                        p.table_for(m, std::slice::from_ref(d));
+                        p.account(d, Some(vec![d.clone()]), None, *m != "E" && *m != "F");
+                    }
+                    Item::Raw(m, d, _) => {
+                        raw = true;
+                        // the real decompressor's answer on a hand-made stream (a point of the
+                        // model's decompress parameter)
+                        let cm = match *m {
+                            "Z" => CompressionMode::ZLib,
+                            "4" => CompressionMode::LZ4,
+                            _ => continue,
+                        };
+                        let r = decompress_chunk(d, cm);
+                        raw_points.push(format!("d{m}:{}:{}", hex(d), r.map(|v| hex(&v)).unwrap_or_else(|_| "!".into())));
+                    }
+                }
+            }
+        }
+        _ => {}
+    }
+    let built = r.strip_prefix("ok ").map(|h| (h.to_string(), unhex(h).unwrap()));
+    let mut dec = String::new();
+    if let Some((h, bytes)) = &built {
+        let mut tab = tab_str(p.tab.iter());
+        if !raw_points.is_empty() {
+            raw_points.sort();
+            raw_points.dedup();
+            tab = if tab == "-" { raw_points.join(",") } else { format!("{},{}", raw_points.join(","), tab) };
+        }
+        let mut real = Real { b: None };
+        let l = format!("dec {} - {}", h, tab);
+        dec = real.run(&l.split(' ').collect::<Vec<_>>()).unwrap();
+        let l2 = format!("decplain {} {}", h, tab);
+        let decplain = real.run(&l2.split(' ').collect::<Vec<_>>()).unwrap();
+        if views && bytes.len() <= 3000 {
+            s.line(&l, &dec);
+            s.line(&l2, &decplain);
+            let l3 = format!("rows {}", h);
+            let r3 = real.run(&l3.split(' ').collect::<Vec<_>>()).unwrap();
+            s.line(&l3, &r3);
+        }
+        // BlteFile::decompress (no key store) is the decoder these entry points are used with
+        if !raw && decplain != dec {
+            s.oracle_fail("decompress-differs-from-decompress-with-keys", &format!("decompress() = {}, decompress_with_keys() = {}", trunc(&decplain), trunc(&dec)), &replay);
+        }
+    }
+    if raw {
+        // hand-made chunks (from_compressed): outside the property's quantifier, K only
+        s.tally("entry.raw-chunks(K only)");
+        s.case(None);
+        return;
+    }
+    let call = if r.starts_with("ok ") { "ok".to_string() } else { r.clone() };
+    oracle(s, &p, &[call], built.as_ref().map(|b| &b.1[..]), &dec);
+    if let Some((_, bytes)) = &built {
+        // layout clauses of the entry points (the builder never writes these two)
+        if let Ok(parsed) = <BlteFile as CascFormat>::parse(bytes) {
+            match (&parsed.header.extended, toks[0]) {
+                (None, "multi") => s.oracle_fail("multi-chunk-without-table", "multi_chunk wrote no chunk table", &replay),
+                (Some(_), "single") => s.oracle_fail("single-chunk-with-table", "single_chunk wrote a chunk table", &replay),
+                (Some(x), _) => {
+                    if (x.flags == HeaderFlags::Extended) != ext {
+                        s.oracle_fail("table-format-byte", &format!("table format {:?}, asked for extended = {ext}", x.flags), &replay);
+                    }
+                    // the extended table also records a checksum of the decoded content
+                    for (i, (row, pl)) in x.chunk_infos.iter().zip(&p.plain_chunks).enumerate() {
+                        if let Some(sum) = row.decompressed_checksum
+                            && sum != md5::compute(&pl.0).0
+                        {
+                            s.oracle_fail("table-decompressed-checksum", &format!("row {i}: decompressed checksum {} but MD5(content) = {}", hex(&sum), hex(&md5::compute(&pl.0).0)), &replay);
+                        }
+                        if ext && row.decompressed_checksum.is_none() {
+                            s.oracle_fail("table-decompressed-checksum", &format!("row {i}: no decompressed checksum in an extended table"), &replay);
+                        }
+                    }
+                }
+                _ => {}
+            }
+        }
+        s.tally(&format!("entry.{}.ok", p.shape[0]));
+    } else {
+        s.tally(&format!("entry.{}.err", p.shape[0]));
+    }
+    s.case(if built.is_some() { Some(line) } else { None });
+    for ((m, plain), comp) in &p.tab {
+        let cm = if *m == 'Z' { CompressionMode::ZLib } else { CompressionMode::LZ4 };
+        if decompress_chunk(comp, cm).ok().as_deref() != Some(&plain[..]) {
+            s.oracle_fail("param-law-decompress-compress", &format!("decompress_chunk(compress_chunk(x)) != x for mode {m}, x = {}", trunc(&hex(plain))), &[]);
+        }
+    }
+}
+
+/// after a call that never returned the runaway thread keeps allocating: write what we have and leave
+fn exit_if_hung(s: Session) -> Session {
+    if HUNG.load(std::sync::atomic::Ordering::SeqCst) {
+        s.finish();
+        std::process::exit(0);
+    }
+    s
+}
+
+/// a decode request on a hand-made container that must be refused by both sides
+fn must_reject(s: &mut Session, bytes: &[u8], keys: &str, sig: &str, what: &str) {
+    let mut real = Real { b: None };
+    let h = hex(bytes);
+    let mut lines = vec![];
+    for l in [format!("dec {h} {keys} -"), format!("decplain {h} -")] {
+        let r = real.run(&l.split(' ').collect::<Vec<_>>()).unwrap();
+        s.line(&l, &r);
+        if r.starts_with("ok") {
+            s.oracle_fail(sig, &format!("{what}: decode returned {}", trunc(&r)), std::slice::from_ref(&l));
+        }
+        s.tally(&format!("reject.{}", if r.starts_with("ok") { "ok" } else { r.as_str() }));
+        lines.push(l);
+    }
+    let l = format!("rows {h}");
+    let r = real.run(&l.split(' ').collect::<Vec<_>>()).unwrap();
+    s.line(&l, &r);
+    s.case(Some(&lines[0]));
+}
+
+fn entry_points(s: &mut Session, rng: &mut Rng, thorough: bool, pool: &[(u64, [u8; 16])]) {
+    let hung = || HUNG.load(std::sync::atomic::Ordering::SeqCst);
+    let content = |rng: &mut Rng, n: usize| -> Vec<u8> {
+        let mut d = match rng.below(4) {
+            0 => vec![rng.byte(); n],
+            1 => (0..n).map(|i| (i % 5) as u8).collect(),
+            _ => rng.bytes(n),
+        };
+        if n > 0 && rng.chance(1, 3) {
+            d[0] = *rng.pick(&[b'N', b'Z', b'4', b'E', b'F']);
+        }
+        d
+    };
+    // compress: exhaustive over chunk sizes x boundary lengths x all five modes
+    for cs in [0usize, 1, 2, 4, 5, 64] {
+        for m in ["N", "Z", "4", "E", "F"] {
+            let mut lens = vec![0usize, 1, cs.saturating_sub(1), cs, cs + 1, 2 * cs, 2 * cs + 1, 3 * cs + 2];
+            lens.sort();
+            lens.dedup();
+            for n in lens {
+                let d = content(rng, n);
+                let mut p = Prog::new();
+                let tab = p.table_for(m, split(cs, &d).as_deref().unwrap_or(&[]));
+                s.tally("sweep.compress");
+                entry_case(s, &format!("compress {cs} {m} {} {tab}", hex(&d)), true, false);
+                if hung() {
+                    return;
+                }
+            }
+        }
+    }
+    // compress: seeded random
+    for k in 0..if thorough { 6000 } else { 400 } {
+        let cs = *rng.pick(&[0usize, 1, 2, 3, 5, 16, 64, 64, 1024, 4096]);
+        let m = *rng.pick(&["N", "N", "Z", "Z", "4", "4", "4", "E", "F"]);
+        let mut p = Prog::new();
+        p.cs = cs;
+        let d = p.payload(rng, if k % 50 == 0 { 3000 } else { 200 });
+        let tab = p.table_for(m, split(cs, &d).as_deref().unwrap_or(&[]));
+        s.tally("random.compress");
+        entry_case(s, &format!("compress {cs} {m} {} {tab}", hex(&d)), k % 4 == 0, false);
+        if hung() {
+            return;
+        }
+    }
+    // single_chunk: every mode x lengths
+    for m in ["N", "Z", "4", "E", "F"] {
+        for n in [0usize, 1, 2, 17, 300] {
+            let d = content(rng, n);
+            let mut p = Prog::new();
+            let tab = p.table_for(m, std::slice::from_ref(&d));
+            s.tally("sweep.single");
+            entry_case(s, &format!("single {m} {} {tab}", hex(&d)), true, false);
+        }
+    }
+    // multi_chunk / multi_chunk_extended over vectors of ChunkData::new chunks (0..6 chunks, one
+    // chunk included: a table with a single plain chunk is a layout the builder never writes)
+    for k in 0..if thorough { 4000 } else { 300 } {
+        let n = if k < 12 { k / 4 } else { rng.range(1, 6) as usize };
+        let mut p = Prog::new();
+        let mut items = vec![];
+        for _ in 0..n {
+            let m = match rng.below(30) {
+                0 => "E",
+                1 => "F",
+                2..=10 => "N",
+                11..=20 => "Z",
+                _ => "4",
+            };
+            let len = *rng.pick(&[0usize, 1, 2, 7, 64, 65, 200]);
+            let d = content(rng, len);
+            p.table_for(m, std::slice::from_ref(&d));
+            items.push(Item::New(d, m));
+        }
+        let fmt = if k % 2 == 0 { "std" } else { "ext" };
+        s.tally(&format!("random.multi-{fmt}"));
+        entry_case(s, &format!("multi {fmt} {} {}", items_str(&items), tab_str(p.tab.iter())), true, false);
+    }
+    // hand-made chunks through the real multi_chunk*: K only (table rows for declared sizes that
+    // are absent or wrong, Frame / Encrypted chunks in an extended table)
+    for k in 0..if thorough { 400 } else { 60 } {
+        let mut p = Prog::new();
+        let mut items = vec![];
+        let mut points: Vec<String> = vec![];
+        for _ in 0..rng.range(1, 4) {
+            let len = *rng.pick(&[0usize, 1, 5, 40]);
+            let d = content(rng, len);
+            match rng.below(5) {
+                0 => {
+                    p.table_for("Z", std::slice::from_ref(&d));
+                    items.push(Item::New(d, "Z"));
+                }
+                1 => items.push(Item::Raw("N", d, if rng.chance(1, 2) { None } else { Some(rng.below(100) as usize) })),
+                2 => items.push(Item::Raw(*rng.pick(&["F", "E"]), d, None)),
+                3 => {
+                    // garbage handed over as a zlib / LZ4 stream: the extended row falls back to
+                    // the checksum of the chunk as serialised, decoding fails
+                    let m = *rng.pick(&["Z", "4"]);
+                    let cm = if m == "Z" { CompressionMode::ZLib } else { CompressionMode::LZ4 };
+                    points.push(format!("d{m}:{}:{}", hex(&d), decompress_chunk(&d, cm).map(|v| hex(&v)).unwrap_or_else(|_| "!".into())));
+                    items.push(Item::Raw(m, d, None));
+                }
+                _ => {
+                    // a real zlib stream handed over with from_compressed (declared size absent or true)
+                    let c = compress_chunk(&d, CompressionMode::ZLib).unwrap();
+                    p.tab.insert(('Z', d.clone()), c.clone());
+                    items.push(Item::Raw("Z", c, if rng.chance(1, 2) { None } else { Some(d.len()) }));
+                }
+            }
+        }
+        let fmt = if k % 2 == 0 { "std" } else { "ext" };
+        let mut tab = tab_str(p.tab.iter());
+        if !points.is_empty() {
+            points.sort();
+            points.dedup();
+            tab = if tab == "-" { points.join(",") } else { format!("{},{}", points.join(","), tab) };
+        }
+        entry_case(s, &format!("multi {fmt} {} {tab}", items_str(&items)), true, false);
+    }
+
+    // a nested container is content: the decoder returns it verbatim, it does not unwrap it
+    let inner = BlteFile::compress(b"nested BLTE content", 8, CompressionMode::None).and_then(|f| CascFormat::build(&f).map_err(|_| BlteError::EmptyChunk)).unwrap();
+    for m in ["N", "Z", "4"] {
+        for cs in [7usize, 4096] {
+            let mut p = Prog::new();
+            let tab = p.table_for(m, split(cs, &inner).as_deref().unwrap_or(&[]));
+            s.tally("nested.container-as-content");
+            entry_case(s, &format!("compress {cs} {m} {} {tab}", hex(&inner)), true, false);
+        }
+    }
+    for et in [0x53u8, 0x41] {
+        let mut p = Prog::new();
+        let e = Enc { et, name: pool[0].0, iv: [4, 3, 2, 1], key: pool[0].1 };
+        p.keys.insert(e.name, e.key);
+        p.cs = 16;
+        p.lines.push("cs 16".into());
+        p.lines.push(format!("enc {}", e.toks()));
+        p.enc = Some(e.clone());
+        p.lines.push(format!("add {} -", hex(&inner)));
+        p.shape.push("add+enc");
+        p.account(&inner, split(16, &inner), Some(&e), true);
+        s.tally("nested.container-as-content");
+        run_prog(s, &p);
+    }
+
+    // Frame mode and nested encryption on the decoding side: refused by code and model.
+    // (a) single-chunk container whose chunk is 'F' + a complete BLTE container (recursive BLTE)
+    for payload in [&inner[..], &b""[..], &b"F"[..], &[0u8; 40][..]] {
+        let mut bytes = b"BLTE\0\0\0\0F".to_vec();
+        bytes.extend_from_slice(payload);
+        must_reject(s, &bytes, "-", "frame-chunk-decoded", "single-chunk container with a Frame chunk");
+    }
+    // (b) a Frame chunk anywhere in a table (built by the real multi_chunk from hand-made chunks)
+    for pos in 0..3usize {
+        for ext in [false, true] {
+            let mut chunks = vec![];
+            for i in 0..3 {
+                if i == pos {
+                    #[allow(deprecated)]
+                    chunks.push(ChunkData::from_compressed(CompressionMode::Frame, inner.clone(), Some(19)));
+                } else {
+                    chunks.push(ChunkData::new(rng.bytes(5), CompressionMode::None).unwrap());
+                }
+            }
+            let f = if ext {
+                BlteHeader::multi_chunk_extended(&chunks).map(|header| BlteFile { header, chunks })
+            } else {
+                BlteFile::multi_chunk(chunks)
+            };
+            let bytes = CascFormat::build(&f.unwrap()).unwrap();
+            must_reject(s, &bytes, "-", "frame-chunk-decoded", "table container with a Frame chunk");
+        }
+    }
+    // (c) an encrypted chunk whose decrypted payload starts with 'F' (nested frame) or 'E'
+    // (nested encryption), encrypted with the real encrypt_chunk_with_key at its own position
+    for (first, sig) in [(b'F', "encrypted-frame-payload-decoded"), (b'E', "nested-encryption-decoded")] {
+        for et in [0x53u8, 0x41] {
+            for pos in 0..2usize {
+                let mut innerp = vec![first];
+                let n = *rng.pick(&[0usize, 1, 30]);
+                innerp.extend_from_slice(&content(rng, n));
+                let spec = EncryptionSpec { key_name: pool[3].0, iv: [1, 1, 2, 3], encryption_type: et };
+                let ed = encrypt_chunk_with_key(&innerp, spec, &pool[3].1, pos).unwrap();
+                let mut chunks = vec![];
+                if pos == 1 {
+                    chunks.push(ChunkData::new(vec![1, 2, 3], CompressionMode::None).unwrap());
+                }
+                chunks.push(ChunkData::from_compressed(CompressionMode::Encrypted, ed, Some(innerp.len() - 1)));
+                let bytes = CascFormat::build(&BlteFile::multi_chunk(chunks).unwrap()).unwrap();
+                let keys = format!("{}:{}", pool[3].0, hex(&pool[3].1));
+                must_reject(s, &bytes, &keys, sig, "encrypted chunk with a nested mode byte");
+            }
+        }
+    }
+}
+
 // ---------------------------------------------------------------- oracle
 
 /// O: evaluated on the implementation's outputs only.
@@ -438,7 +931,8 @@ fn oracle(s: &mut Session, p: &Prog, step_resps: &[String], built: Option<&[u8]>
         if x.chunk_infos.len() != parsed.chunks.len() || x.chunk_count as usize != parsed.chunks.len() {
             s.oracle_fail("table-count", &format!("{} rows, count field {}, {} chunks", x.chunk_infos.len(), x.chunk_count, parsed.chunks.len()), replay);
         }
-        if parsed.header.header_size as usize != 12 + 24 * x.chunk_infos.len() {
+        let info_size = if x.flags == HeaderFlags::Extended { 40 } else { 24 };
+        if parsed.header.header_size as usize != 12 + info_size * x.chunk_infos.len() {
             s.oracle_fail("table-header-size", &format!("header_size {} for {} rows", parsed.header.header_size, x.chunk_infos.len()), replay);
         }
         // chunk bodies as they sit in the file, located by the header_size field (not by the parser)
@@ -602,6 +1096,13 @@ fn replay(s: &mut Session, lines: &[String]) {
     let mut resps: Vec<String> = vec![];
     for l in lines {
         let toks: Vec<&str> = l.split(' ').collect();
+        if matches!(toks[0], "compress" | "single" | "multi") {
+            entry_case(s, l, false, true);
+            if HUNG.load(std::sync::atomic::Ordering::SeqCst) {
+                return;
+            }
+            continue;
+        }
         let r = real.run(&toks).unwrap_or_else(|| "bad-op".into());
         s.line(l, &r);
         println!("impl  {} -> {}", trunc(l), trunc(&r));
@@ -683,7 +1184,18 @@ fn replay(s: &mut Session, lines: &[String]) {
             _ => {}
         }
         match toks[0] {
-            "begin" | "dec" | "decplain" | "rows" => {}
+            "dec" | "decplain" => {
+                // a container that holds a Frame chunk must be refused by the real decoders
+                #[allow(deprecated)]
+                if r.starts_with("ok")
+                    && let Some(bytes) = toks.get(1).and_then(|h| unhex(h))
+                    && let Ok(parsed) = <BlteFile as CascFormat>::parse(&bytes)
+                    && parsed.chunks.iter().any(|c| c.mode == CompressionMode::Frame)
+                {
+                    s.oracle_fail("frame-chunk-decoded", &format!("container with a Frame chunk decoded to {}", trunc(&r)), std::slice::from_ref(l));
+                }
+            }
+            "begin" | "rows" => {}
             "build" => {
                 s.case(Some(&p.lines.join("|")));
                 if let Some(h) = r.strip_prefix("ok ") {
@@ -723,6 +1235,7 @@ fn main() {
     if let Some(p) = &args.replay {
         let lines = read_case(p);
         replay(&mut s, &lines);
+        let s = exit_if_hung(s);
         s.finish();
         return;
     }
@@ -844,6 +1357,10 @@ fn main() {
         s.tally("random.program");
         run_prog(&mut s, &p);
     }
+
+    // the encoder entry points outside the builder, Frame mode and nested containers
+    entry_points(&mut s, &mut rng, args.thorough(), &pool);
+    let mut s = exit_if_hung(s);
 
     // the default chunk size (private constant 256 KiB): one payload just above it, plain and
     // encrypted, so that the default-path chunking and a 64-byte-block-crossing keystream are hit
